@@ -27,11 +27,60 @@ def families(tier, seed):
         if tag.split("-")[0] in ("D1", "D3"):
             out.append(dict(tag=f"{tag}/heun", features=dict(feats, dt=0.1, heun=True), kind="run", model=model, T=2.0, dt=0.1, dts=None,
                             solver="heun", vec=False, only_vars=feats.get("only_vars")))
+    # the two-stage route (apply() with its defaults, then CircuitIR.run) and the other Python backends (refuse or equal NumPy)
+    for tag, feats, model in gen.delay_families("discrete"):
+        if tag.split("-")[0] in ("D1", "D4"):       # (no undelayed edge from a merged source: that is a listed finding of its own)
+            for vec in (False, True):
+                out.append(dict(tag=f"{tag}/two-stage", features=dict(feats, dt=0.1, two_stage=True), kind="two_stage", model=model, T=2.0, dt=0.1, vec=vec,
+                                only_vars=feats.get("only_vars")))
+    for b in ("torch", "jax"):
+        for form in ("scalar", "connectivity"):
+            out.append(dict(tag=f"delayed-edges/{form}/0/{b}", features=dict(backend=b, delayed_edges=form), kind="delayed_edges_backend", backend=b,
+                            form=form, order=0))
     for tag, feats, ps in gen.c16_cases(seed):
         if tag.startswith("P5"):
             dt = feats.get("dt", 0.05)
             out.append(dict(tag=tag, features=feats, kind="population", ps=ps, T=10 * dt, dt=dt))
     return out
+
+
+def two_stage_case(c):
+    """The documented two-stage route: CircuitTemplate.apply(step_size=...) with its defaults, then CircuitIR.run(solver='euler'):
+    the same delayed recurrence as CircuitTemplate.run."""
+    import numpy as np
+    from rtc import mdl
+    model, T, dt = c["model"], c["T"], c["dt"]
+    tpl = mdl.build_templates(model)
+    svars = [v for v in mdl.state_vars(model) if not c.get("only_vars") or v in c["only_vars"]]
+    outs = {f"v{i}": p for i, p in enumerate(svars)}
+    try:
+        tpl.apply(step_size=dt, vectorize=c["vec"], verbose=False, backend="default", float_precision="float64")
+        out_map, out_ir = tpl.get_variable_positions(dict(outs))
+        res = tpl.intermediate_representation.run(simulation_time=T, solver="euler", outputs=out_ir)
+        got = {k: np.squeeze(np.asarray(res[k])[:, idx]) for k, idx in out_map.items()}
+    except Exception as exn:
+        return dict(status="violated", fails=[dict(clause="apply() + CircuitIR.run(solver='euler') returns a result", observed=f"{type(exn).__name__}: {exn}")])
+    _, ref = mdl.spec_fixed_step(model, T, dt, dt, "euler")
+    fails = []
+    for k, p in outs.items():
+        g, w = np.asarray(got[k], dtype=float).ravel(), np.asarray(ref[p], dtype=float)
+        if g.shape != w.shape or not np.allclose(g, w, rtol=1e-7, atol=1e-10):
+            bad = int(np.argmax(np.abs(g - w))) if g.shape == w.shape else -1
+            fails.append(dict(clause="apply() + CircuitIR.run(solver='euler'): every row equals the delayed recurrence", var=p, row=bad,
+                              observed=float(g[bad]) if bad >= 0 else list(g.shape), expected=float(w[bad]) if bad >= 0 else list(w.shape)))
+            break
+    import pyrates
+    pyrates.clear(tpl)
+    return dict(status="violated" if fails else "ok", fails=fails)
+
+
+def case_fn(c):
+    if c.get("kind") == "two_stage":
+        return two_stage_case(c)
+    if c.get("kind") == "delayed_edges_backend":
+        from checks import c02 as _c02
+        return _c02.delayed_edges_backend_case(c)
+    return cases.case_fn(c)
 
 
 def rounding_fallback(chk):
@@ -84,14 +133,14 @@ def main():
         chk.report_failure(f)
     _cases = families(chk.tier, chk.seed)
     _results = driver.run_family(
-        chk, "run-euler-vs-delayed-recurrence", _cases, cases.case_fn, site="C09/run",
+        chk, "run-euler-vs-delayed-recurrence", _cases, case_fn, site="C09/run",
         rule="circuits with delayed edges only / mixed delayed+undelayed from different sources / one source with several "
              "delays / one target with several delays / an undelayed edge sharing its source with a delayed one / 4-node "
              "rings with two delay values and with a permuted uniform delay; vectorize off and on; every state variable, "
              "every row against the recurrence target_in[k] = w*source[k - round(d/dt)] (0 before the start); distinct = "
              "distinct (model, T, dt, vectorize)",
         sample_of=lambda c: {k: v for k, v in c.items() if k not in ('features',)})
-    driver.run_sequences(chk, "run-euler-vs-delayed-recurrence-in-sequence", _cases, _results, cases.case_fn, site="C09/run",
+    driver.run_sequences(chk, "run-euler-vs-delayed-recurrence-in-sequence", [c_ for c_ in _cases if c_.get("kind") not in ("delayed_edges_backend",)], _results, case_fn, site="C09/run",
                          limit=20 if chk.tier == "quick" else 120, seed=chk.seed)
     rc = chk.finish(
         explanation="Bounded: run(solver='euler') of every family member against the explicitly delayed recurrence computed by "
